@@ -202,6 +202,9 @@ def _(v):
     seen.clear()
     v.call(cls.from_string, "A %s B" % arrow, "A B", False, checks=())
     v.prove("string_of_keys_is_split", all(sk == ["A", "B"] for _, sk in seen) and len(seen) == 4)
+    seen.clear()
+    v.call(cls.from_string, "A %s A" % arrow, "A", False, checks=())
+    v.prove("string_with_a_single_key_is_a_list_of_one_key", all(sk == ["A"] for _, sk in seen) and len(seen) == 4, detail=repr(seen))
 
 
 @harness("C12", "to_reaction.parameters", functions=[PA + ":to_reaction"], kind="data")
@@ -284,3 +287,21 @@ def _(v):
     plain = ReactionSystem.from_string("H2O -> H+ + OH-; 2\nH+ + OH- -> H2O; 3")
     ok, det = back(ReactionSystem, plain)
     v.prove("unnamed_system", ok, detail=det)
+
+
+@harness("C12", "unknown_keys_are_refused", functions=["chempy.chemistry:Reaction.from_string", PA + ":_parse_multiplicity"], kind="data")
+def _(v):
+    """'an unknown key is rejected when an allowed-key list is given', whatever the form the allowed keys take (list, tuple, blank- or tab-separated
+    string, a string holding a single key) and wherever the unknown key stands"""
+    from chempy.chemistry import Reaction, Equilibrium
+    accepted = []
+    for text, keys in (("H2O2 -> H2O + O", "H2O2"), ("H2O2 -> H2O + O", ["H2O2"]), ("H2O2 -> H2O + O", ("H2O2", "H2O")), ("H -> O", "H2O\tO2"), ("H2O -> H + OH", "H2O OH"),
+                       ("A + B -> C + (D)", "A B C"), ("A + (2 X) -> C", ["A", "C"]), ("2 * Q -> A", "A")):
+        for cls, arrow in ((Reaction, "->"), (Equilibrium, "=")):
+            try:
+                accepted.append((str(cls.from_string(text.replace("->", arrow), keys, checks=())), keys))
+            except ValueError:
+                pass
+    v.prove("every_form_of_the_allowed_keys", not accepted, detail=repr(accepted))
+    ok = str(Reaction.from_string("H2O2 -> H2O + O", "H2O2 H2O O")) == "H2O2 -> H2O + O" and str(Reaction.from_string("H2O2 -> H2O + O", ["O", "H2O", "H2O2"])) == "H2O2 -> H2O + O"
+    v.prove("known_keys_are_accepted", ok)
